@@ -352,7 +352,7 @@ def main():
     for opspec in spec['ops']:
         op, nq, nt = opspec[0], opspec[1], opspec[2]
         extra = opspec[3] if len(opspec) > 3 else ()
-        n = nt if tier == 'thorough' else nq
+        n = min(nt, 12 * nq) if tier == 'thorough' else nq   # thorough: ~12x the quick volume (10-20 min per property)
         t1 = time.time()
         cases, results = run_op(op, n, seed, tier, extra)
         total += len(results)
@@ -375,6 +375,23 @@ def main():
                 nfail += 1
                 (failures if any(f.startswith(('prop:', 'impl:', 'driver:', 'model:')) for f in rel) else corr_only).append((op, cid, cases.get(cid, []), rel, detail))
         op_stats.append({'op': op, 'cases': len(results), 'relevant_failures': nfail, 'wall_s': round(time.time() - t1, 2)})
+
+    # ---- 2b. race-detector driver (C14/C20: concurrency is exercised, not proved) ----
+    race_info = None
+    if spec.get('race_driver'):
+        dur = '20s' if tier == 'thorough' else '2s'
+        t1 = time.time()
+        try:
+            p = subprocess.run(['go', 'run', '-race', '-tags', 'verif', './cmd/racedrv', dur], cwd=HARNESS, env=dict(GOENV, CGO_ENABLED='1'),
+                               stdout=subprocess.PIPE, stderr=subprocess.STDOUT, text=True, timeout=900)
+            out = p.stdout
+            race_info = {'duration': dur, 'exit': p.returncode, 'data_race_reported': 'DATA RACE' in out, 'results_differ': 'results-differ' in out,
+                         'wall_s': round(time.time() - t1, 1), 'tail': out[-400:]}
+            total += 1
+            if 'DATA RACE' in out or 'results-differ' in out or (p.returncode != 0 and 'racedrv done' not in out):
+                failures.append(('racedrv', 'race-driver', [], ['prop:C14:data-race' if 'DATA RACE' in out else 'prop:C14:concurrent-results-differ'], out[-1500:]))
+        except Exception as e:  # toolchain without cgo/race support: recorded, not a verdict
+            race_info = {'error': str(e)}
 
     # ---- 3. verdict ----
     violations = []
@@ -434,7 +451,7 @@ def main():
             'rule': spec.get('rule', ''), 'samples': samples, 'ops': op_stats, 'tag_histogram': dict(sorted(tag_hist.items())),
             'correspondence_mismatches_on_projection': len(corr_only), 'property_failures': len(failures),
             'known_findings_reported': known_status, 'fixed_findings': fixed,
-            'coqchk': coqchk,
+            'coqchk': coqchk, 'race_driver': race_info,
         },
         'assumptions': spec.get('assumptions', []),
         'wall_s': round(time.time() - t0, 2), 'violations': len(violations),
